@@ -444,6 +444,12 @@ def run(res, tier, lean, proof_breaks=(), build_log=""):
         ("shell", {"lifetimes": [4, 4, 4], "wait": True, "drop": True,
                    "threads": [[("event",), ("event",)], [("sleep", 1), ("event",), ("sleep", 1), ("event",)]]}),
         ("shell", {"lifetimes": [3, 3, 3], "drop": True, "threads": [[("event",), ("sleep", 1), ("event",), ("sleep", 4), ("event",)]]}),
+        # an event in the gap between a command's exit (0.375 s) and its watcher's next poll (0.4 s), then another while the
+        # next command runs
+        ("shell", {"lifetimes": [3, 3, 3, 3], "drop": True,
+                   "threads": [[("event",), ("sleep", 3), ("event",), ("sleep", 1), ("event",), ("sleep", 3), ("event",)]]}),
+        ("shell", {"lifetimes": [3, 7, 3, 3], "drop": True,
+                   "threads": [[("event",), ("sleep", 3), ("event",), ("sleep", 1), ("event",), ("sleep", 3), ("event",), ("sleep", 8)]]}),
     ]
     # random plans: thread 0 starts, sleeps and finally stops; the others deliver events (and may stop too) at random times
     for _ in range(40 if thorough else 12):
